@@ -345,6 +345,20 @@ def rule_stop_sequence(prog, res, rule="R-STOP-SEQ"):
     elif not acc:
         res.fail(rule, inst, "%s|accept" % rule, f.loc(),
                  "acquire_stop never re-accepts writes on the sink's channel: after an abort every later acquisition's source gets no region")
+    # no early exit: every return is reached through the per-stream loop
+    loops = paths.natural_loops(f)
+    if loops:
+        head, body = max(loops, key=lambda x: len(x[1]))
+        hb = f.blocks[head]
+        hc = hb.stmts[hb.cond] if hb.cond is not None else None
+        ok, wit = paths.all_paths_pass(f, "entry", "exit", lambda s: s is hc)
+        inst = "acquire_stop visits every stream before it returns"
+        if ok:
+            res.oblige(rule, inst, True, "every path to a return evaluates the stream loop", f.loc())
+        else:
+            res.fail(rule, inst, "%s|early-exit" % rule, f.loc(),
+                     "acquire_stop can return without looking at the streams (an early exit): workers are not joined and the monitor is not flushed, so frames of the finished acquisition are delivered in the next one",
+                     {"path_blocks": wit})
     # state
     st = [s for b, i, s in f.all_stmts() for lv, op, rhs, w in ir.writes_of(s)
           if lv.get("k") == "mem" and lv["f"] == "state" and isinstance(ir.strip(rhs), dict) and ir.strip(rhs).get("e") == "DeviceState_Armed"]
